@@ -40,7 +40,7 @@ pub proof fn lemma_surv_div(a: Seq<f64>, b: Seq<f64>, h: f64, t: real, k: int)
              header_re=r"^for strat in split_by_mut\(",
              as_fn="truncate__per_infoset", params="strat: &mut [f64], thresh: f64",
              obligation="C18.V.truncate.sums_to_one",
-             table=[(r"^let total: f64 = strat\.iter\(\)\.filter\(\|p\| p > &&thresh\)\.sum\(\);$", ("abstract", "let total: f64 = __abs_total(strat, thresh);"))],
+             table=[(r"^let total: f64 = strat\.iter\(\)\.filter\(\|p\| [^|;]*\)\.sum\(\);$", ("abstract", "let total: f64 = __abs_total(strat, thresh);"))],
              contract="""ensures
     final(strat)@.len() == old(strat)@.len(),
     // some action exceeds h (with positive mass): exactly those actions survive, rescaled
